@@ -20,6 +20,10 @@ def regenerate():
     extract.main()
 
 
+def builds(tier):
+    return ["dev"] if tier == "quick" else ["dev", "release"]
+
+
 def generate(r, tier, build):
     k = 1 if tier == "quick" else 25
     return G.zig_requests(r, 1200 * k) + G.dist_requests(r, 600 * k)
